@@ -87,9 +87,6 @@ func (tr *fnTrans) queryText2(o *Obligation, wantModel bool, relaxed bool) strin
 		}
 		sb.WriteString(d + "\n")
 	}
-	for _, d := range v.structDecls {
-		sb.WriteString(d + "\n")
-	}
 	for _, n := range tr.mapOrder {
 		hi := tr.maps[n]
 		sb.WriteString(fmt.Sprintf("(declare-const %s %s)\n", tr.heapEntry(n), heapSortName(hi)))
@@ -144,6 +141,7 @@ type solverPool struct {
 	cacheDir string
 	workDir  string
 	mu       sync.Mutex
+	seq      int
 }
 
 func newSolverPool(n int, cacheDir string) *solverPool {
@@ -219,7 +217,11 @@ func (p *solverPool) solve(query string, timeoutS int, which []string) SolveResu
 			}
 		}
 	}
-	file := filepath.Join(p.workDir, key[:24]+".smt2")
+	p.mu.Lock()
+	p.seq++
+	seq := p.seq
+	p.mu.Unlock()
+	file := filepath.Join(p.workDir, fmt.Sprintf("%s_%d.smt2", key[:16], seq))
 	os.WriteFile(file, []byte(query), 0o644)
 	defer os.Remove(file)
 	ctx, cancel := context.WithCancel(context.Background())
